@@ -121,7 +121,9 @@ func Interval(interval time.Duration) Observable[int64] {
 // Play: https://go.dev/play/p/Xhi6c336ldy
 func IntervalWithInitial(initial, interval time.Duration) Observable[int64] {
 	return NewObservableWithContext(func(ctx context.Context, destination Observer[int64]) Teardown {
-		ticker := time.NewTicker(initial * 2)
+		// the ticker only runs once the initial delay has elapsed (it is reset then): until that
+		// moment it must not tick, whatever the ratio between `initial` and `interval`
+		ticker := time.NewTicker(time.Duration(math.MaxInt64))
 		timer := time.NewTimer(initial)
 		done := make(chan struct{}, 1)
 
